@@ -20,6 +20,7 @@ import JanetModel.Lib.Boot2
 import JanetModel.Lib.BufPushC
 import JanetModel.Lib.StrReplC
 import JanetModel.Lib.Boot3
+import JanetModel.Lib.Boot5
 open Driver JanetModel.Lib
 
 inductive V where
@@ -135,6 +136,9 @@ def fn2 (name : String) : Option (Int → Int → Int) :=
   match name with
   | "add" => some (· + ·) | "mul" => some (· * ·) | "sub" => some (· - ·) | "max2" => some max | "min2" => some min
   | "snd" => some (fun _ y => y) | _ => none
+def fn3 (name : String) : Option (Int → Int → Int → Int) :=
+  match name with
+  | "add3" => some (fun x y z => x + y + z) | "pick3" => some (fun x y z => 100 * x + 10 * y + z) | _ => none
 /-- comparators; the Bool says whether it is a strict weak order (exact correspondence expected) -/
 def cmp (name : String) : Option (Int → Int → Bool) :=
   match name with
@@ -591,6 +595,27 @@ def call (f : String) (args : List V) : Out :=
      | some g, some xs, some ys => withMirror (Boot.map2 g xs ys) (some (List.zipWith g xs ys)) args
          (.ok (.seq 1 ((List.zipWith g xs ys).map V.int)) args)
      | _, _, _ => .skip)
+  | "map", [.fn g, .seq _ l, .seq _ l2, .seq _ l3] =>
+    (match fn3 g, ints l, ints l2, ints l3 with
+     | some g, some xs, some ys, some zs =>
+       let r := List.zipWith (fun (p : Int × Int) z => g p.1 p.2 z) (List.zip xs ys) zs
+       withMirror (Boot.map3 g xs ys zs) (some r) args (.ok (.seq 1 (r.map V.int)) args)
+     | _, _, _, _ => .skip)
+  | "find", [.fn p, .seq _ l] =>
+    (match pred p, ints l with
+     | some p, some xs => withMirror (Boot.find p xs) (some (xs.find? p)) args (.ok ((xs.find? p).elim V.nil V.int) args)
+     | _, _ => .skip)
+  | "index-of", [.int x, .seq _ l] =>
+    (match ints l with
+     | some xs => withMirror (Boot.indexOf x xs) (some (xs.findIdx? (fun y => y == x))) args
+         (.ok (match xs.findIdx? (fun y => y == x) with | some i => .int i | none => .nil) args)
+     | none => .skip)
+  | "reduce2", [.fn g, .seq _ l] =>
+    (match fn2 g, ints l with
+     | some g, some xs =>
+       let r : Option Int := match xs with | [] => none | y :: ys => some (ys.foldl g y)
+       withMirror (Boot.reduce2 g xs) (some r) args (.ok (r.elim V.nil V.int) args)
+     | _, _ => .skip)
   | "reduce", [.fn g, .int init, .seq _ l] =>
     (match fn2 g, ints l with
      | some g, some xs => withMirror (Boot.reduce g init xs) (some (reduce g init xs)) args (.ok (.int (reduce g init xs)) args)
